@@ -377,10 +377,18 @@ func main() {
 				}
 				p := newProj(it.Design, it.Mut.extraReq())
 				term, _ := p.coqDesign()
-				fmt.Fprintf(&ref, "(%d, %s, %s, %s, %s)\n", id, term, vh.CoqBool(it.Mut.Covered), vh.CoqBool(o.Outcome == "accepted"), p.coqErrs(r.Parsed))
+				covered := it.Mut.Covered
 				if it.Mut.Kind == "none" && o.Outcome == "rejected" {
+					// an unmutated random design that goa rejects: the generator left its envelope.
+					// If none of the reported errors is of a modelled kind the case says nothing
+					// about the model (counted; checks/c12.py refuses more than a handful).
 					res.Count("base_design_rejected")
+					if len(r.Parsed) == 0 {
+						covered = false
+						res.Count("base_design_rejected_unmodelled_kind")
+					}
 				}
+				fmt.Fprintf(&ref, "(%d, %s, %s, %s, %s)\n", id, term, vh.CoqBool(covered), vh.CoqBool(o.Outcome == "accepted"), p.coqErrs(r.Parsed))
 			}
 			if id%331 == 7 {
 				res.Sample(map[string]any{"item": it, "observed": o}, 6)
